@@ -9,6 +9,7 @@ import (
 	"sort"
 	"strconv"
 	"strings"
+	"sync/atomic"
 	"time"
 	"unicode/utf8"
 
@@ -28,7 +29,7 @@ type dbExec struct {
 	db      kv.DB
 	clock   *time2.MockedClock
 	notif   bool
-	dir     string // non-empty: on-disk store (programs with restarts)
+	dir     string              // non-empty: on-disk store (programs with restarts)
 	subs    []kv.SequenceWaiter // sequence-update subscribers (sq.* ops)
 	seen    []string            // what each of them has observed last ("\x00none" = nothing yet)
 	tainted bool                // a write failed as a whole after it had told subscribers about keys
@@ -290,6 +291,69 @@ func (e *dbExec) op(op string) string {
 		e.subs = append(e.subs, sw)
 		e.seen = append(e.seen, "\x00none")
 		return fmt.Sprintf("sub=%d", len(e.subs)-1)
+	case "sq.subrace":
+		// sq.subrace <prefix> <db.write arguments>: a subscriber registers itself, a write with (at least) two
+		// puts announces the key of its first put, and only then - before the write is committed - the
+		// subscriber's initial read of the committed state happens; the write commits afterwards
+		prefix := string(core.UnHex(f[1]))
+		req, off, ts := parseWriteOp(append([]string{"db.write"}, f[2:]...))
+		reached := make(chan struct{})
+		release := make(chan struct{})
+		var fired atomic.Bool
+		kv.SetVerifYieldHook(e.db, func(p string) {
+			if p == "sequence.waiter.added" && fired.CompareAndSwap(false, true) {
+				close(reached)
+				<-release
+			}
+		})
+		defer kv.SetVerifYieldHook(e.db, nil)
+		subDone := make(chan kv.SequenceWaiter, 1)
+		go func() {
+			sw, err := e.db.GetSequenceUpdates(prefix)
+			if err != nil {
+				subDone <- nil
+				return
+			}
+			subDone <- sw
+		}()
+		select {
+		case <-reached:
+		case <-time.After(2 * time.Second):
+			return "err:no-yield"
+		}
+		var sw kv.SequenceWaiter
+		released := false
+		cb := &subRaceCallback{inner: server.WrapperUpdateOperationCallback, onSecondPut: func() {
+			if !released {
+				released = true
+				close(release)
+				sw = <-subDone
+			}
+		}}
+		resp, err := e.db.ProcessWrite(req, off, ts, cb)
+		if !released {
+			released = true
+			close(release)
+			sw = <-subDone
+		}
+		if sw == nil {
+			return "err:sub"
+		}
+		e.subs = append(e.subs, sw)
+		e.seen = append(e.seen, "\x00none")
+		if err != nil {
+			e.tainted = true
+			return dbInfra(err)
+		}
+		ps := make([]string, len(resp.Puts))
+		for i, p := range resp.Puts {
+			if p.Status == proto.Status_OK {
+				ps[i] = fmt.Sprintf("ok(%s,k=%s)", showVersion(p.Version), showOptS(p.Key))
+			} else {
+				ps[i] = showStatus(p.Status)
+			}
+		}
+		return fmt.Sprintf("P[%s] sub=%d", strings.Join(ps, " "), len(e.subs)-1)
 	case "sq.close":
 		var n int
 		fmt.Sscan(f[1], &n)
@@ -465,6 +529,30 @@ func (e *dbExec) op(op string) string {
 		return fmt.Sprintf("found(pk=%s,sk=%s) %s", core.Hex([]byte(pk)), showOptS(sk), showGetResp(gr, nil))
 	}
 	return "bad-op"
+}
+
+// subRaceCallback lets the harness act between the first and the second put of a write request
+type subRaceCallback struct {
+	inner       kv.UpdateOperationCallback
+	puts        int
+	onSecondPut func()
+}
+
+func (c *subRaceCallback) OnPut(b kv.WriteBatch, r *proto.PutRequest, se *proto.StorageEntry) (proto.Status, error) {
+	c.puts++
+	if c.puts == 2 {
+		c.onSecondPut()
+	}
+	return c.inner.OnPut(b, r, se)
+}
+func (c *subRaceCallback) OnDelete(b kv.WriteBatch, key string) error {
+	return c.inner.OnDelete(b, key)
+}
+func (c *subRaceCallback) OnDeleteWithEntry(b kv.WriteBatch, key string, v *proto.StorageEntry) error {
+	return c.inner.OnDeleteWithEntry(b, key, v)
+}
+func (c *subRaceCallback) OnDeleteRange(b kv.WriteBatch, lo string, hi string) error {
+	return c.inner.OnDeleteRange(b, lo, hi)
 }
 
 func dbExecOps(ops []string, outs []string) {
